@@ -16,7 +16,11 @@ instance.  What is replaced (assumed contracts, DESIGN 2.6):
   A-models      Psat_k(T), Tsat_k(P), gamma_k(x, T), phi_k(y, T, P), pcf_k(T, P) are uninterpreted positive
                 functions (gamma/phi take the composition in a canonical order of the chemicals, i.e. the models are
                 assumed to be equivariant under permutation of the chemical list; C16 looks at that).
-                Configurations also run the real Ideal/Mock coefficient classes.
+                Configurations also run the real Ideal/Mock coefficient classes.  Dew point: Psat_k >= 1e-16 Pa
+                (DewPoint._T_error overwrites smaller values); in the z = s*(c1,c2,..) configurations (concrete
+                composition, arbitrary total s) additionally Psat_k, gamma_k <= 1e12, which keeps the 1e-32 trace
+                guards of dew_point.py from firing (each guard on a symbolic value is otherwise a 2-way fork; the
+                '+'/'?' configurations explore all of them).
 
 The clauses are the sentences of the property with the *normalised* composition zbar = z / sum(z):
   bubble:  sum_k zbar_k gamma_k(zbar,T) pcf_k Psat_k(T) / (phi_k(y,T,P) P) = 1,  y_k = that term,  sum y = 1
@@ -457,18 +461,19 @@ def _configs_for(solver):
     def configs(tier):
         out = []
 
-        def add(IDs, pat, gamma='stub', phi='stub', pcf='stub', secant='ok', k=0):
-            nm = f"{'+'.join(i[:3] for i in IDs)};z={pat};gamma={gamma};phi={phi};pcf={pcf};secant={secant};k={k}"
-            out.append({'name': nm, 'IDs': list(IDs), 'z': pat, 'gamma': gamma, 'phi': phi, 'pcf': pcf, 'secant': secant, 'k': k})
+        def add(IDs, pat, gamma='stub', phi='stub', pcf='stub', secant='ok', k=0, via='solve'):
+            nm = f"{'+'.join(i[:3] for i in IDs)};z={pat};gamma={gamma};phi={phi};pcf={pcf};secant={secant};k={k}" + (';via=__call__' if via == 'call' else '')
+            out.append({'name': nm, 'IDs': list(IDs), 'z': pat, 'gamma': gamma, 'phi': phi, 'pcf': pcf, 'secant': secant, 'k': k, 'via': via})
         WE = ('Water', 'Ethanol'); WEM = ('Water', 'Ethanol', 'Methanol'); Wt = ('Water',)
         ideal = dict(gamma='ideal', phi='ideal', pcf='mock')
         # single positive component / nothing present
-        add(Wt, '+'); add(Wt, '?')
+        add(Wt, '+'); add(Wt, '?'); add(Wt, '?', via='call')
         add(WE, '+0'); add(WE, '0+'); add(WEM, '0+0'); add(WEM, '00+', **ideal)
         # two components, one uninterpreted model at a time + the real ideal classes
         SC = 's*(0.3,0.7)'
         add(WE, '++', **ideal)
         add(WE, '++', phi='ideal', pcf='mock')
+        add(WE, '++' if kind == 'bubble' else SC, via='call', **ideal); add(WE, '0+', via='call')
         if kind == 'bubble':
             add(WE, '++', gamma='ideal', pcf='mock'); add(WE, '++', gamma='ideal', phi='ideal')
             add(WE, '++'); add(WE, '++', secant='raise', phi='ideal')
@@ -512,7 +517,14 @@ def _solver_body(solver):
             given = spec_leaf(w, h, which)
             z = env.arr(zvals)
             try:
-                res, comp = getattr(h.point, meth)(z, given)
+                if cfg.get('via') == 'call':          # BubblePoint(z, P=..) / DewPoint(z, T=..): the observable entry point
+                    vals = h.point(z, **{which: given})
+                    res, comp = (vals.T, vals.y if kind == 'bubble' else vals.x) if which == 'P' else (vals.P, vals.y if kind == 'bubble' else vals.x)
+                    w.ensure('result object: the specification is handed back, IDs and z are those of the call',
+                             w.And(w.eq(vals.P if which == 'P' else vals.T, given), vals.IDs == h.point.IDs, w.all_eq(list(vals.z), zvals),
+                                   (vals.x if kind == 'bubble' else vals.y) is vals.z))
+                else:
+                    res, comp = getattr(h.point, meth)(z, given)
             except ValueError as e:
                 w.ensure('ValueError only when no component is positive', w.And(*[w.le(v, 0.) for v in zvals]))
                 w.canary('canary: ValueError although a component is positive', w.Or(*[w.gt(v, 0.) for v in zvals], False))
@@ -534,13 +546,17 @@ def _solver_body(solver):
 _A = ['A-root: flx.aitken_secant / IQ_interpolation return x* > 0 with callback(x*) == 0, last evaluation at x*; '
       'flx.wegstein returns x* with callback(x*) == x*',
       'A-models: Psat_k(T), Tsat_k(P), gamma_k(x,T), phi_k(y,T,P), pcf_k(T,P) uninterpreted positive functions '
-      '(gamma, phi equivariant under permutation of the chemical list); dew point: Psat_k >= 1e-16 Pa']
+      '(gamma, phi equivariant under permutation of the chemical list); dew point: Psat_k >= 1e-16 Pa (below that '
+      'DewPoint._T_error replaces the model value); configurations z=s*(..) (concrete composition, arbitrary total): '
+      'Psat_k, gamma_k <= 1e12 so that no 1e-32 trace guard of dew_point.py can fire',
+      'requires: P in [5e3, 3e6] Pa resp. T in [max(260, Tmin), min(480, Tmax)] K of the solver object; '
+      'single component: "returned fractions = zbar" is claimed for sum(z) >= 1e-16 (fn.normalize documents equal fractions below)']
 
 _FUNCS = {
-    'Ty': ['BubblePoint.solve_Ty', 'BubblePoint._T_error', 'BubblePoint._T_error_ideal', 'BubblePoint._Ty_ideal', 'solve_y', 'y_iter'],
-    'Py': ['BubblePoint.solve_Py', 'BubblePoint._P_error', 'BubblePoint._Py_ideal', 'solve_y', 'y_iter'],
-    'Tx': ['DewPoint.solve_Tx', 'DewPoint._T_error', 'DewPoint._T_error_ideal', 'DewPoint._Tx_ideal', 'DewPoint._solve_x', 'solve_x', 'gamma_iter'],
-    'Px': ['DewPoint.solve_Px', 'DewPoint._P_error', 'DewPoint._Px_ideal', 'DewPoint._solve_x', 'solve_x', 'gamma_iter'],
+    'Ty': ['BubblePoint.__call__', 'BubblePoint.solve_Ty', 'BubblePoint._T_error', 'BubblePoint._T_error_ideal', 'BubblePoint._Ty_ideal', 'solve_y', 'y_iter'],
+    'Py': ['BubblePoint.__call__', 'BubblePoint.solve_Py', 'BubblePoint._P_error', 'BubblePoint._Py_ideal', 'solve_y', 'y_iter'],
+    'Tx': ['DewPoint.__call__', 'DewPoint.solve_Tx', 'DewPoint._T_error', 'DewPoint._T_error_ideal', 'DewPoint._Tx_ideal', 'DewPoint._solve_x', 'solve_x', 'gamma_iter'],
+    'Px': ['DewPoint.__call__', 'DewPoint.solve_Px', 'DewPoint._P_error', 'DewPoint._Px_ideal', 'DewPoint._solve_x', 'solve_x', 'gamma_iter'],
 }
 for _s, (_kind, _m, _wh) in SOLVERS.items():
     _mod = 'thermosteam.equilibrium.bubble_point' if _kind == 'bubble' else 'thermosteam.equilibrium.dew_point'
@@ -715,7 +731,25 @@ def _compositions(n, tier):
     return zs
 
 
+_warm = False
+
+
+def _warm_up():
+    """JIT-compile the numba kernels once in the parent (grid_configs runs there, before the native pool is forked), so the
+    workers do not each recompile them into the private numba cache."""
+    global _warm
+    if _warm: return
+    _warm = True
+    z = np.array([0.4, 0.6])
+    for pkg in ('ideal', 'dortmund'):
+        th = b_thermo(('Water', 'Ethanol'), pkg)
+        BP = eq.BubblePoint(th.chemicals.tuple, th); DP = eq.DewPoint(th.chemicals.tuple, th)
+        BP.solve_Ty(z, 101325.); BP.solve_Py(z, 350.); DP.solve_Tx(z, 101325.); DP.solve_Px(z, 350.)
+    W.reset_caches()
+
+
 def grid_configs(tier):
+    _warm_up()
     C = B_CHEMS
     subsets = [(c,) for c in C]
     pairs = [('Water', 'Ethanol'), ('Water', 'Methanol'), ('Ethanol', 'Methanol'), ('Ethanol', 'Propanol'), ('Propanol', 'Butanol'),
@@ -769,7 +803,8 @@ def _dew_terms(DP, zb, T, P, x):
 
 
 @group('C08/grid_real_solvers', configs=grid_configs, mode='B',
-       functions=['thermosteam.equilibrium.bubble_point:BubblePoint.solve_Ty', 'thermosteam.equilibrium.bubble_point:BubblePoint.solve_Py',
+       functions=['thermosteam.equilibrium.bubble_point:BubblePoint.__call__', 'thermosteam.equilibrium.dew_point:DewPoint.__call__',
+                  'thermosteam.equilibrium.bubble_point:BubblePoint.solve_Ty', 'thermosteam.equilibrium.bubble_point:BubblePoint.solve_Py',
                   'thermosteam.equilibrium.dew_point:DewPoint.solve_Tx', 'thermosteam.equilibrium.dew_point:DewPoint.solve_Px',
                   'thermosteam._chemical:Chemical.Tsat'],
        notes='real flexsolve solvers and real property data: 1-4 of 10 volatile chemicals (quick: 10 singles, 15 pairs, 6 triples, '
@@ -815,9 +850,12 @@ def grid_real_solvers(w, cfg):
         tag = f'P={P:g}: '
         zin = z.copy()
         try:
-            Tb, y = BP.solve_Ty(zin, P); Td, x = DP.solve_Tx(zin, P)
+            b = BP(zin, P=P); d = DP(zin, P=P)          # the observable entry point: result objects
         except RuntimeError:
             skipped += 1; continue
+        Tb, y, Td, x = b.T, b.y, d.T, d.x
+        w.ensure(f'{tag}result objects hand back P, IDs and z', b.P == P and d.P == P and b.IDs == tuple(c.ID for c in chems) == d.IDs
+                 and bool(np.all(b.z == z)) and bool(np.all(d.z == z)))
         if not (Tlo <= Tb <= Thi and Tlo <= Td <= Thi):
             skipped += 1; continue
         evaluated += 1
@@ -848,9 +886,12 @@ def grid_real_solvers(w, cfg):
             skipped += 1; continue
         zin = z.copy()
         try:
-            Pb, y = BP.solve_Py(zin, T); Pd, x = DP.solve_Px(zin, T)
+            b = BP(zin, T=T); d = DP(zin, T=T)
         except RuntimeError:
             skipped += 1; continue
+        Pb, y, Pd, x = b.P, b.y, d.P, d.x
+        w.ensure(f'{tag}result objects hand back T, IDs and z', b.T == T and d.T == T and b.IDs == tuple(c.ID for c in chems) == d.IDs
+                 and bool(np.all(b.z == z)) and bool(np.all(d.z == z)))
         if not (5e3 <= Pb <= 3e6 and 5e3 <= Pd <= 3e6):
             skipped += 1; continue
         evaluated += 1
